@@ -153,6 +153,23 @@ def execute(req, env: Env):
             g = env.grid(gid)
             f = g.make_operator(op, BCS[bcid], backend=backend, **kw)
             return _digest(np, f(_data(np, g, rank)))
+        if kind == "opinfo":  # user-defined operators passed as OperatorInfo (same name and ranks, other factory)
+            from pde.tools.typing import OperatorInfo
+
+            _, gid, k, bcid, backend = req
+            g = env.grid(gid)
+
+            def factory(grid, k=k, **kwargs):
+                def op(arr, out):
+                    out[...] = k * arr[(slice(1, -1),) * grid.num_axes]
+
+                return op
+
+            f = g.make_operator(OperatorInfo(factory, 0, 0), BCS[bcid], backend=backend)
+            r1 = f(_data(np, g, 0))
+            out = np.empty(tuple(g.shape))
+            g.make_operator_no_bc(OperatorInfo(factory, 0, 0), backend=backend)(np.pad(_data(np, g, 0), 1, mode="edge"), out)
+            return _digest(np, [r1, out])
         if kind == "field":  # field.apply_operator(op, bc)
             _, gid, op, bcid, rank = req
             return _digest(np, env.field(gid, rank).apply_operator(op, bc=BCS[bcid]))
@@ -305,6 +322,8 @@ def alphabet(family, tier):
         reqs.append(["nobc", "C", "laplace"])
         reqs.append(["gridprop", "A", "cell_volumes"])
         reqs.append(["gridprop", "B", "cell_volumes"])
+        for k in (2, 3):
+            reqs.append(["opinfo", "A", k, "v0", "numba"])
     elif family == "radial":
         bcs = ["v0", "d0", "c0", "v1", "d1", "m1", "ve0", "rlvhd", "rldhv"]
         bcs += ["m1b"]
@@ -470,7 +489,8 @@ def check_history(hist):
             ref = reference(req)
             what = "result differs from the same request in a fresh interpreter"
             fam = {"mkop": "operator cache", "field": "operator cache", "nobc": "operator cache", "gridprop": "grid cache",
-                   "rate": "pde cache", "rhs": "pde cache", "solve": "pde cache", "expr": "expression cache"}[req[0]]
+                   "rate": "pde cache", "rhs": "pde cache", "solve": "pde cache", "expr": "expression cache",
+                   "opinfo": "operator cache"}[req[0]]
         if got != ref:
             prev = [h for h in hist[:i]]
             viol.append({
